@@ -51,17 +51,17 @@ CHECKS = {
  'C02': dict(
     category='exploration', design='3 C02',
     technique='runtime monitoring: attacker workload (independent writer recomputes Manifests up to level k) against every lookup/verify API of a fresh real loader, with a ChainInvariant monitor re-deriving from disk that each loaded sub-Manifest matches a loaded parent entry',
-    text='For every chain depth (1..3 complete in quick, 1..5 in thorough), tamper kind (file or DIST changed/added/removed), attacker level k and API, the real loader must raise ManifestMismatch naming the first broken link and never return a result; after every call loaded_manifests is checked against the bytes on disk. A variant makes a link unverifiable (only uncomputable hash names, equal sizes): nothing below it may be trusted.',
-    note='Trusted: independent writer/reader, one-shot hashlib. Hash collisions are out of scope. Update mode (which loads unverified by design) is not covered here.'),
+    text='For every chain depth (1..3 complete in quick, 1..5 in thorough), tamper kind (file or DIST changed/added/removed), attacker level k and API, the real loader must raise ManifestMismatch naming the first broken link and never return a result; after every call loaded_manifests is checked against the bytes on disk. A variant makes a link unverifiable (only uncomputable hash names, equal sizes): nothing below it may be trusted. Stealth variants keep sizes and put back - or set to the epoch and earlier - the timestamps of the forged Manifests; histories on a long-lived loader precede the judged call (innocent lookups, a failed sibling update, a pending unsaved entry refresh in the top directory).',
+    note='Trusted: independent writer/reader, one-shot hashlib. Hash collisions are out of scope. Directory updates (which load unverified by design) are not covered here.'),
  'C06': dict(
     category='fault_enumeration', design='3 C06',
     technique='runtime fault injection: Python-level failpoints on every file-system call class (counting run, then one execution per class x call index x errno), kernel-level strace -e inject on a sample, genuine EACCES as uid 65534; WriteAudit (sys.addaudithook) + tree snapshots for the update half',
-    text='For each generated tree (consistent, or consistent plus one stray) and each of strict verify, keep-going verify and the scan phase of update, every single placement of an injected OSError at os.open/open/os.stat/os.fstat/os.scandir/scandir iteration/binary read/text read is executed: the result must never be success, and a failing update must leave no write event and a byte-identical tree. A strace layer injects the same faults in the kernel on a sample; a privilege-dropped child meets real mode-000 files, directories and Manifests.',
+    text='For each generated tree (consistent, or consistent plus one stray) and each of strict verify, keep-going verify and the scan phase of update, every single placement of an injected OSError at os.open/open/os.stat/os.fstat/os.scandir/scandir iteration/binary read/text read is executed: the result must never be success, and a failing update must leave no write event and a byte-identical tree; the same with more than one job requested (max_jobs / --jobs) and through `gemato verify` with messages emitted. A strace layer injects the same faults in the kernel on a sample; a privilege-dropped child meets real mode-000 files, directories and Manifests.',
     note='Single faults only. ENOENT/ENXIO/EOPNOTSUPP excluded. Stat-family faults injected at the kernel boundary are not decidable (CPython io.open ignores its own fstat failures) and only counted. Errno set of ten values; quick uses all ten for call classes with <= 16 calls and three otherwise.'),
  'C16': dict(
     category='exploration', design='3 C16',
     technique='runtime monitoring: the three real tree walkers under a logical step budget (wrapped os.walk with permuted order) on enumerated directory shapes x symlink sets vs an independent ancestor-stack exploration; real second file system (/dev/shm) for the one-file-system half',
-    text='Every directory shape with <= 3 (quick) / 4 (thorough) directories and every set of <= 2 / 3 directory symlinks among all (location, target) pairs, with IGNORE on a link or above it, is walked by verify (lenient handler), the unregistered-Manifest scan and update: ManifestSymlinkLoop must be raised exactly when a non-ignored link leads back to an ancestor, nothing may exceed 4000 directory steps, and files behind other links must verify like ordinary files. With allow_xdev=False a linked-in /dev/shm directory or file must raise ManifestCrossDevice from every walker (also when the top-level Manifest is only being created), never when ignored or allowed.',
+    text='Every directory shape with <= 3 (quick) / 4 (thorough) directories and every set of <= 2 / 3 directory symlinks among all (location, target) pairs, with IGNORE on a link or above it, is walked by verify (lenient handler), the unregistered-Manifest scan and update: ManifestSymlinkLoop must be raised exactly when a non-ignored link leads back to an ancestor, nothing may exceed 4000 directory steps, and files behind other links must verify like ordinary files. With allow_xdev=False a linked-in /dev/shm directory or file must raise ManifestCrossDevice from every walker (also when the top-level Manifest is only being created, and for a foreign sub-Manifest that is due for rewriting), never when ignored or allowed. Every link may have a pruned (hidden or IGNOREd) directory next to it.',
     note='Trusted: the exploration in vf/checks/c16.py (explore), os.stat identities. A stray file on another device may be reported as a stray mismatch instead of the cross-device error in verify mode (counted, not a violation). Wall-clock watchdogs only ever yield inconclusive.'),
  'C03': dict(
     category='exploration', design='3 C03',
@@ -86,12 +86,12 @@ CHECKS = {
  'C11': dict(
     category='exploration', design='3 C11',
     technique='runtime monitoring: replica comparison (incremental vs full `gemato update`) over histories with os.utime-controlled mtimes under tzset-switched timezones; scan hook recording the first-scanned instant and injecting a modification right after a file was hashed',
-    text='Two replicas live through the same 1..4 (quick) / 1..6 (thorough) rounds of add/delete/modify/touch with mtimes placed older than, equal to, 1 s / 30 min / 1 h / 10 h after the previous TIMESTAMP (read back from the Manifest), one updated incrementally, one fully, under TZ in {UTC, XXX-8, XXX8, XXX-5:30, XXX12}: Manifests must be equal apart from TIMESTAMP whenever every same-size change ends up newer than the TIMESTAMP; a TIMESTAMP written by an update must not be later than the instant the hook saw the first file scanned (also when the previous TIMESTAMP lay in the future); a file modified by the hook right after it was hashed must be picked up by the next incremental run.',
+    text='Two replicas live through the same 1..4 (quick) / 1..6 (thorough) rounds of add/delete/modify/touch with mtimes placed older than, equal to, 1 s / 30 min / 1 h / 10 h after the previous TIMESTAMP (read back from the Manifest), one updated incrementally, one fully, under TZ in {UTC, XXX-8, XXX8, XXX-5:30, XXX12}: Manifests must be equal apart from TIMESTAMP whenever every same-size change ends up newer than the TIMESTAMP; a TIMESTAMP written by an update must not be later than the instant the hook saw the first file scanned (also when the previous TIMESTAMP lay in the future); a file modified by the hook right after it was hashed must be picked up by the next incremental run. Directories arriving with their own Manifests, and a Manifest dropped between the top and a registered sub-Manifest that lists an untouched, old file with wrong checksums (dedup unit, TIMESTAMP moved to a fixed date), count as file additions.',
     note='Timezones sampled, no DST rules. Same-size changes not newer than the TIMESTAMP are unconstrained (U4). Assumes the system clock does not step during a run.'),
  'C14': dict(
     category='exploration', design='3 C14',
     technique='runtime monitoring: sign-option x key-state matrix through the real loader/CLI with a real GnuPG home; the written files are judged by gpg itself (--verify, --decrypt) and by the independent reader (post-condition, armor scan of every sub-Manifest)',
-    text='For generated layouts (nested, split and compressed sub-Manifests, hostile paths, plain or compressed top-level Manifest) and every combination of sign {unset,on,off} x originally signed/unsigned x key id {default, explicit, wrong} x secret key {usable, absent} the top-level Manifest written by update+save must be a cleartext-signed message exactly when signing was requested or inherited; gpg --verify must accept it with the expected key, gpg --decrypt must yield the entries in the file, those entries must describe the current tree, no sub-Manifest may contain armor, and an impossible signing must raise OpenPGPSigningFailure without leaving a plain Manifest with entries.',
+    text='For generated layouts (nested, split and compressed sub-Manifests, hostile paths, plain or compressed top-level Manifest) and every combination of sign {unset,on,off} x originally signed/unsigned x key id {default, explicit, wrong} x secret key {usable, absent} the top-level Manifest written by update+save must be a cleartext-signed message exactly when signing was requested or inherited; gpg --verify must accept it with the expected key, gpg --decrypt must yield the entries in the file, those entries must describe the current tree, no sub-Manifest may contain armor, and an impossible signing (no key, wrong key id, a line longer than GnuPG covers - counted in bytes) must raise OpenPGPSigningFailure without leaving a plain Manifest with entries. A top-level Manifest signed on disk and loaded again on a long-lived loader has to be saved signed.',
     note='Trusted: GnuPG 2.2.40 + gpg-agent, vendored test key, independent reader. A top-level Manifest that did not have to be rewritten is not judged.'),
  'C19': dict(
     category='exploration', design='3 C19',
